@@ -164,8 +164,8 @@ namespace via
 
         if (keep_alive)
           return true;
-        else
-          tcp_pointer->shutdown();
+        else // close the connection after the response has been sent
+          tcp_pointer->disconnect();
       }
       else
         std::cerr << "http_connection::send connection weak pointer expired"
